@@ -1,8 +1,7 @@
 (* RootBal.v -- C11 for resolvers/openat2.rs, resolvers.rs, root.rs, utils/dir.rs.
    The Root operations are proved balanced for ANY resolver that satisfies the
    lookup contracts [res_ok]/[resp_ok]; the kernel (openat2) backend is shown to
-   satisfy them.  (The emulated walk's Rc bookkeeping is not yet covered by a
-   theorem: see C11 in DESIGN.md; its traces are replayed and balance-checked.) *)
+   satisfy them here, the emulated backend (Rc bookkeeping included) in OpathBal.v. *)
 From PV Require Import FdBalance ProgTac PathProofs FdBalProofs.
 From Coq Require Import Permutation.
 Open Scope N_scope.
@@ -229,7 +228,7 @@ Proof.
                                | Ok true => ra_rounds scan fin subdir g'
                                end
                    end))).
-  { intro fl. constructor; [intros ? E; discriminate|]. intro ro. cbn [step_owned opens].
+  { intro fl. constructor; [intros ? E; discriminate|]. intros ro _. cbn [step_owned opens].
     destruct (as_fd ro) as [dfd|e]; cbn [app].
     - eapply bal_bind; [apply Hscan; reflexivity|]. intros r o3 Ho3. hnf in Ho3.
       eapply bal_perm; [apply perm_closed_Rsame| |apply Permutation_sym, Ho3].
